@@ -75,6 +75,15 @@ def images_case(desc):
     got = {k: v for k, v in imm.snap_cells(im).items() if v}
     check(want == got, "refiling-differs", lambda: "cells after load: missing %r, unexpected %r, changed %r" % (
         sorted(set(want) - set(got)), sorted(set(got) - set(want)), [k for k in want if k in got and want[k] != got[k]][:2]))
+    # one already parsed document feeding two objects: the document stays the caller's, the second reader sees what the first saw
+    parsed = json.loads(json.dumps(doc))
+    before = copy.deepcopy(parsed)
+    for n in (1, 2):
+        reader = Images()
+        must("deserialize-parsed-document", reader.deserialize, parsed)
+        check(parsed == before, "caller-document-modified", lambda: "the parsed document handed to deserialize() was modified: %s" % diff(before, parsed))
+        got_n = {k: v for k, v in imm.snap_cells(reader).items() if v}
+        check(got_n == want, "refiling-differs", lambda: "reader #%d of the same parsed document: cells differ from the description" % n)
     text = must("dumps-after-upgrade", im.dumps)
     payload = json.loads(text)["payload"]["images"]
     check(not bad_keys(payload), "source-arch-key-in-dump", lambda: "dumped payload has arch keys %r" % bad_keys(payload))
@@ -95,6 +104,14 @@ def rpms_case(desc):
     want = dc.legacy_rpms_expected(desc)
     d = diff(want, r.rpms)
     check(d is None, "refiling-differs", lambda: "expected(description) vs Rpms.rpms after load: %s" % d)
+    parsed = json.loads(json.dumps(doc))
+    before = copy.deepcopy(parsed)
+    for n in (1, 2):
+        reader = Rpms()
+        must("deserialize-parsed-document", reader.deserialize, parsed)
+        check(parsed == before, "caller-document-modified", lambda: "the parsed document handed to deserialize() was modified: %s" % diff(before, parsed))
+        d = diff(want, reader.rpms)
+        check(d is None, "refiling-differs", lambda: "reader #%d of the same parsed document: %s" % (n, d))
     text = must("dumps-after-upgrade", r.dumps)
     payload = json.loads(text)["payload"]
     check("manifest" not in payload, "legacy-table-in-dump", "dump still has a 'manifest' table")
